@@ -171,6 +171,26 @@ func runVector(v *Vector, seed int64, wantTrace bool) VecResult {
 		}
 		if err != nil {
 			if hardSoFar() { // a consequence of the failure already recorded for this behaviour, not an infrastructure error
+				// ... and a failure of this step's own property too, if that is another one: what the step was to show (a round trip,
+				// an acceptance by the peer) cannot happen, because the call that was to produce its input failed
+				var f0 *Failure
+				mine := false
+				for k := range res.Failures {
+					f := &res.Failures[k]
+					if f.Infra == "" && !f.Soft {
+						if f0 == nil {
+							f0 = f
+						}
+						if f.Prop == st.Prop {
+							mine = true
+						}
+					}
+				}
+				if f0 != nil && !mine && st.Prop != "" {
+					res.Failures = append(res.Failures, Failure{Vid: v.ID, Step: i + 1, Act: st.Act, Prop: st.Prop, Key: "needs",
+						Got:  fmt.Sprintf("cannot be made: it needs a result of step %d (%s), which failed (%s: got %s, want %s)", f0.Step, f0.Act, f0.Key, clip(f0.Got), clip(f0.Want)),
+						Want: "the earlier call delivers what this step works on", Sig: "needs:" + f0.Act + ":" + f0.Key})
+				}
 				return res
 			}
 			res.Infra++
@@ -242,7 +262,7 @@ func runVector(v *Vector, seed int64, wantTrace bool) VecResult {
 		}
 		for _, k := range keys {
 			if !eqJ(obs[k], exp[k]) {
-				f := Failure{Vid: v.ID, Step: i + 1, Act: st.Act, Prop: st.Prop, Key: k, Got: short(obs[k]), Want: short(exp[k]), Soft: st.Soft && k != "panic" && k != "junkok", Sig: sig}
+				f := Failure{Vid: v.ID, Step: i + 1, Act: st.Act, Prop: st.Prop, Key: k, Got: short(obs[k]), Want: short(exp[k]), Soft: st.Soft && k != "panic" && k != "junkok" && k != "err", Sig: sig}
 				if k == "panic" {
 					f.Got = short(J{"panic": obs["panic"], "msg": obs["panicmsg"]})
 				} else if f.Sig == "" {
